@@ -589,6 +589,8 @@ def oracle(case, obs):
                 key = 'valid-rejected:digit-leading-name'
             elif odd_zero and cls == 'ValueError' and 'Offsets' in o.get('message', ''):
                 key = 'valid-rejected:zero-offset-spelling'
+            elif cls == 'AttributeError' and any(d['name'].endswith('__') for d in defs):
+                key = 'valid-rejected:trailing-double-underscore'
             else:
                 key = 'valid-rejected'
             fails.append({'key': key, 'detail': 'order %d %s raised %s: %s' % (k, names, cls, o.get('message'))})
